@@ -1,4 +1,7 @@
-use super::{SolverState, clause::WatchedLiterals};
+use super::{
+    SolverState,
+    clause::{Clause, WatchedLiterals},
+};
 use crate::{
     Candidates, Dependencies, DependencyProvider, NameId, Requirement, SolvableId, SolverCache,
     StringId, VersionSetId,
@@ -326,6 +329,20 @@ impl<'a, D: DependencyProvider> Encoder<'a, D> {
         for &forbidden_candidate in candidates {
             let forbidden_candidate_var =
                 self.state.variable_map.intern_solvable(forbidden_candidate);
+
+            // A solvable whose constraint rules out the solvable itself can
+            // never be installed. The clause (¬A ∨ ¬A) has only one literal,
+            // so it is an assertion rather than a clause with two watches.
+            if forbidden_candidate_var == variable {
+                let kind = Clause::Constrains(variable, variable, constraint);
+                let clause_id = self.state.clauses.alloc(None, kind);
+                self.state.negative_assertions.push((variable, clause_id));
+                if parent_installed {
+                    self.conflicting_clauses.push(clause_id);
+                }
+                continue;
+            }
+
             let (watched_literals, conflict, kind) = WatchedLiterals::constrains(
                 variable,
                 forbidden_candidate_var,
